@@ -4,10 +4,11 @@
      C01_fragment_preservation -- semantic preservation of the backend model (Back/IR.v `lower` + the AST
      twin Pres/EmitAst.v of the text emitter Back/Emit.v) with respect to the reference interpreter
      Sem/SyltSem.v (source side) and the Lua 5.3 interpreter model Lua/LuaCore.v (target side), for the
-     computable fragment Pres/Frag.v `frag` (STAGE 3b: int/bool expressions, print, definitions, assignments
+     computable fragment Pres/Frag.v `frag` (STAGE 4a: int/bool expressions, print, definitions, assignments
      = += -= *=, if/elif/else expressions and statements, loops with break and continue, blocks, inside
      `start :: fn do ... end`; top-level global values and top-level FUNCTIONS with parameters before start,
-     called by name, recursion included; the value of a function is that of its last expression).  The Lua side runs the statements of the
+     called by name, recursion included; the value of a function is that of its last expression or of an
+     early `ret e`, also from inside if-branches and loops).  The Lua side runs the statements of the
      REAL preamble.lua (Gen/GenPreamble.v, regenerated on every run) followed by the program's statements.
    WHAT IS CHECKED AT RUN TIME, per program of the tie (tools/props/c01.py):
      * component "emit_ast": LuaParse.parse_lua Lua53 (real compiler output) = ParseOk (chunk_ast code), i.e. the
@@ -267,6 +268,60 @@ Example C01_example4_lua_side :
   match lower 30 ex_prog4 with
   | Ok code => let out := LuaCore.run_block Lua53 4900 (chunk_ast code) in
                o_trace out = ["3"; "11"; "11"; "133"]%string /\ o_final out = FDone
+  | _ => False
+  end.
+Proof. vm_compute. split; reflexivity. Qed.
+
+(* ---- a fifth program (stage 4a): early return, also from inside a loop ----
+     find :: fn lim: int -> int do
+       i := 0
+       loop i < 10 do
+         i += 1
+         if i * i > lim do ret i end
+       end
+       0 - 1
+     end
+     start :: fn do
+       print(find(10))
+       print(find(200))
+       if find(3) == 2 do ret 7 end
+       print(99)
+     end                                                                                        *)
+Definition ex_prog5 : resolved :=
+  mkResolved
+    [mkVar 0 "print" sp0 true Const; mkVar 1 "find" sp0 true Const; mkVar 2 "start" sp0 true Const;
+     mkVar 3 "== STACK ==" sp0 false Const; mkVar 4 "lim" sp0 false Const; mkVar 5 "i" sp0 false Mutable]
+    [SExternalDefinition "print" 0 Const (TImplied sp0) sp0;
+     SDefinition "find" 1 Const (TImplied sp0)
+       (EFunction "lambda" [("lim"%string, 4%N, sp0, TImplied sp0)] (TImplied sp0)
+          [SDefinition "i" 5 Mutable (TImplied sp0) (EInt 0 sp0) sp0;
+           SLoop (EBinOp Less (ERead 5 sp0) (EInt 10 sp0) sp0)
+             [SAssignment Add (ERead 5 sp0) (EInt 1 sp0) sp0;
+              SStatementExpression
+                (EIf [IfBranch (Some (EBinOp Greater (EBinOp Mul (ERead 5 sp0) (ERead 5 sp0) sp0) (ERead 4 sp0) sp0))
+                        [SRet (Some (ERead 5 sp0)) sp0] sp0] sp0) sp0] sp0;
+           SStatementExpression (EBinOp Sub (EInt 0 sp0) (EInt 1 sp0) sp0) sp0]
+          false sp0) sp0;
+     SDefinition "start" 2 Const (TImplied sp0)
+       (EFunction "lambda" [] (TImplied sp0)
+          [SStatementExpression (Resolved.ECall (ERead 0 sp0) [Resolved.ECall (ERead 1 sp0) [EInt 10 sp0] sp0] sp0) sp0;
+           SStatementExpression (Resolved.ECall (ERead 0 sp0) [Resolved.ECall (ERead 1 sp0) [EInt 200 sp0] sp0] sp0) sp0;
+           SStatementExpression
+             (EIf [IfBranch (Some (EBinOp Equals (Resolved.ECall (ERead 1 sp0) [EInt 3 sp0] sp0) (EInt 2 sp0) sp0))
+                     [SRet (Some (EInt 7 sp0)) sp0] sp0] sp0) sp0;
+           SStatementExpression (Resolved.ECall (ERead 0 sp0) [EInt 99 sp0] sp0) sp0]
+          false sp0) sp0].
+
+Example C01_example5_hypotheses :
+  frag 30 ex_prog5 = true /\
+  (exists code, lower 30 ex_prog5 = Ok code) /\
+  SyltSem.run 40 ex_prog5 = mkRun ["4"; "-1"]%string ODone.
+Proof. split; [vm_compute; reflexivity | split; [eexists; vm_compute; reflexivity | vm_compute; reflexivity]]. Qed.
+
+Example C01_example5_lua_side :
+  match lower 30 ex_prog5 with
+  | Ok code => let out := LuaCore.run_block Lua53 4900 (chunk_ast code) in
+               o_trace out = ["4"; "-1"]%string /\ o_final out = FDone
   | _ => False
   end.
 Proof. vm_compute. split; reflexivity. Qed.
